@@ -323,6 +323,21 @@ Theorem c12_multidel_partial :
 Proof. intros. apply kv_each_f_filter. Qed.
 Print Assumptions c12_multidel_partial.
 
+(* Metrics hook.  Every use of a metric vector in the wrapper package passes exactly the declared number of label
+   values (so the go-redis hook cannot panic on label cardinality when the Prometheus agent is enabled, whatever the
+   command's outcome); the vectors and their uses are the documented ones.  Behaviour with the agent enabled: driven
+   (error histories in a metrics-enabled driver process). *)
+Theorem c12_metrics_label_arity :
+  C12_Table.metrics_table = metrics_spec /\
+  forall m n uses, In (m, n, uses) C12_Table.metrics_table -> forall u, In u uses -> u = n.
+Proof.
+  split; [exact link_metrics_table|].
+  intros m n uses Hin u Hu. pose proof link_metrics_arity as H. rewrite forallb_forall in H.
+  specialize (H _ Hin). simpl in H. rewrite forallb_forall in H. specialize (H _ Hu).
+  apply Nat.eqb_eq in H. congruence.
+Qed.
+Print Assumptions c12_metrics_label_arity.
+
 (* ---- non-vacuity ---- *)
 Example c12_rows_exist :
   find_row C12_Table.redis_table "ZScoreCtx" =
